@@ -50,6 +50,8 @@ type Prog struct {
 	regFns        []*ssa.Function
 	regIfaceAlias []*types.Func
 	regSole       []*ssa.Function
+	regGroup      []*types.Var
+	regMemo       []*types.Var
 	byName        map[string]*ssa.Function
 	CG            *callgraph.Graph // Deep only
 	NPkgs         int              // all packages in the import graph
@@ -438,6 +440,14 @@ func (p *Prog) Release() {
 		delete(soleSites, f)
 	}
 	p.regSole = nil
+	for _, f := range p.regGroup {
+		delete(groupInit, f)
+	}
+	p.regGroup = nil
+	for _, f := range p.regMemo {
+		delete(memoStore, f)
+	}
+	p.regMemo = nil
 	helperMu.Unlock()
 	p.regObjs, p.regFns, p.regGlobals = nil, nil, nil
 	paramMapMu.Lock()
